@@ -2004,6 +2004,7 @@ func (f *formatter) ScalarHeredoc(n *ast.ScalarHeredoc) {
 		p.Accept(f)
 	}
 	n.CloseHeredocTkn = f.newToken(token.T_START_HEREDOC, []byte("EOT"))
+	f.addFreeFloating(token.T_WHITESPACE, []byte("\n"))
 }
 
 func (f *formatter) ScalarLnumber(n *ast.ScalarLnumber) {
